@@ -274,13 +274,17 @@ def time_shift(z, /, shift, crop=False):
     start, stop = 0, 0
     it = np.nditer(shift, flags=["multi_index"])
     for a in it:
+        # Length-1 axes of shift are broadcast over the whole sample axis
+        el = tuple(
+            slice(None) if n == 1 else i for i, n in zip(it.multi_index, shift.shape)
+        )
         if a < 0:
             a = int(np.floor(a))
-            ix = (np.s_[a:],) + it.multi_index
+            ix = (np.s_[a:],) + el
             stop = min(stop, a)
         else:
             a = int(np.ceil(a))
-            ix = (np.s_[:a],) + it.multi_index
+            ix = (np.s_[:a],) + el
             start = max(start, a)
 
         shifted[ix] = 0
